@@ -19,6 +19,7 @@ from pbsym.ctx import B
 from pbsym.models import fs as fsm, b64, quiet
 
 PROPERTY = 'C20'
+TECHNIQUE = 'CrossHair/z3 symbolic execution of the file handlers with symbolic size and rational limit on a file-system model; z3 + cvc5 IEEE-754 lemmas generated from _mb_size; concrete real-bytes validator'
 FUNCTIONS = ['playback/interception/files/file_interception.py::FileInterception._get_file_path',
              'playback/interception/files/file_interception.py::FileInterception._is_file_above_size_limit',
              'playback/interception/files/file_interception.py::FileInterception._mb_size',
